@@ -115,6 +115,12 @@ def run(case):
     # a hand-made LoaderGroup of two loaders with different pixel sizes: the common range in nm is a different
     # number of pixels for each of them (the finer one searches 1.5 M pixels)
     hand = kind == "group" and gen.rng_for(p["iseed"], "c01-hand").random() < 0.5
+    grouped_nt = kind == "notemplate" and gen.rng_for(p["iseed"], "c01-gnt").random() < 0.4
+    if grouped_nt:
+        # template-free searches move by 1 px only, so the particle may fill the box: each group's reference is its
+        # own average, one fifth of which is the wrongly oriented member, and a compact particle (centres within 4 px)
+        # was not told apart from its rotated copies in 2 of ~150 thorough cases
+        M = 1.0
     if hand:
         M = min(M, 2.0)   # keeps 1.5 M within the usual range: a larger margin would squeeze the particle into a
         #                   2-px ball that hardly changes under the searched rotations (thorough seed 0: NCC picked a
@@ -132,7 +138,6 @@ def run(case):
     tmpl = gen.render_box(shape, blobs)
     # template-free alignment of a grouped loader with a searched rotation set: in each group one molecule is given
     # with a wrong orientation (one of the searched rotations away from the truth), which the search has to undo
-    grouped_nt = kind == "notemplate" and gen.rng_for(p["iseed"], "c01-gnt").random() < 0.4
     rot_arg, rots = rotation_set(rng, p["rotset"] if kind not in ("notemplate",) else ("list3" if grouped_nt else "none"))
     Model = model_class(p["model"])
     nm = p["nmol"] if kind != "notemplate" else (10 if grouped_nt else 6)
